@@ -425,6 +425,8 @@ func lexInsideAction(l *lexer) stateFn {
 			itemBool != l.lastType &&
 			itemField != l.lastType &&
 			itemChar != l.lastType &&
+			itemRightParen != l.lastType &&
+			itemRightBrackets != l.lastType &&
 			itemTrans != l.lastType {
 			l.backup()
 			return lexNumber
@@ -442,6 +444,8 @@ func lexInsideAction(l *lexer) stateFn {
 			itemBool != l.lastType &&
 			itemField != l.lastType &&
 			itemChar != l.lastType &&
+			itemRightParen != l.lastType &&
+			itemRightBrackets != l.lastType &&
 			itemTrans != l.lastType {
 			l.backup()
 			return lexNumber
